@@ -69,7 +69,11 @@ class Exec:
         if ts is not None:
             fn, length, normal_len, predicate = ts
             goal = fn(st.tn, record, st) if predicate else record == fn(st.tn)
-            self.oblige('trace:each_call_is_the_expected_one_at_its_position', st, goal, kind='trace')
+            if isinstance(goal, list):
+                # several named conditions on this call: one obligation each
+                for label, g in goal: self.oblige(f'trace:{label}', st, g, kind='trace')
+            else:
+                self.oblige('trace:each_call_is_the_expected_one_at_its_position', st, goal, kind='trace')
             if length is not None:
                 self.oblige('trace:no_call_beyond_the_expected_ones', st, st.tn < length, kind='trace')
         st.emit(record)
@@ -160,6 +164,8 @@ class Exec:
             if attr == '__traceback__': return [(st, PConst(TBStub(o)))]
             if attr == '__cause__': return [(st, st.read('__cause__', Val.ref(o.val)))]
             raise Unsupported(f'exception attribute {attr}')
+        if isinstance(o, ZV) and o.kind == 'val' and attr == 'state' and self.spec.goto_state_attr:
+            return [(st, ZV('str', Val.gs(o.z)))]          # fsm.Goto is a frozen dataclass value
         if isinstance(o, ZV) and o.kind == 'val' and attr in ('etrue', 'efalse'):
             # EventCond is a frozen dataclass value
             return [(st, ZV('val', (ec_true if attr == 'etrue' else ec_false)(Val.ek(o.z))))]
